@@ -36,9 +36,26 @@ fn gen(seed: u64, idx: u64, _tier: Tier) -> Plan {
         }
     }
     world_knobs(&mut rng, &mut plan, false);
+    if rng.chance(1, 2) {
+        // error paths log too: socket, TCP and file errors while traffic flows
+        let f = &mut plan.world.faults;
+        f.send_err = *rng.pick(&[0u32, 50]);
+        f.recv_err = *rng.pick(&[0u32, 50]);
+        f.accept_err = *rng.pick(&[0u32, 200]);
+        f.tcp_write_err = *rng.pick(&[0u32, 200]);
+        f.file_create_err = *rng.pick(&[0u32, 300]);
+        f.file_write_err = *rng.pick(&[0u32, 300]);
+    }
     if scenario == "c20.failing_startup" {
         // configurations that make start-up fail in different ways, with the seed present
-        match rng.below(13) {
+        match rng.below(16) {
+            13 | 14 | 15 => {
+                // a key-management provider is named while the seed is a plaintext one (and, in
+                // the last case, a provider string no build knows): validation refuses to start
+                let v = *rng.pick(&["arn:aws:kms:us-east-2:111122223333:key/1234abcd-12ab-34cd-56ef-1234567890ab", "projects/p/locations/global/keyRings/r/cryptoKeys/k", "vault:transit/roughenough"]);
+                let k = if s.source == ConfigSource::Env { "ROUGHENOUGH_KMS_PROTECTION" } else { "kms_protection" };
+                s.extra.push((k.into(), v.into()));
+            }
             9 | 10 => {
                 // a seed whose 64 hex digits are all decimal (9), or decimal with one 'e' (10),
                 // written bare as the README writes seeds: YAML reads a number, start-up fails
